@@ -414,8 +414,54 @@ def invariant_order_matrix():
                    "d19_shape": False, "matrix": ["inv-order", list(combo), layout]}
 
 
+def builtin_bases(ctx):
+    """Classes with invariants that have no Python __init__ but inherit a C-level one (sub-classes of list, dict, set,
+    deque, Exception, bytearray): decorated directly, as a DBC class and as a sub-class inheriting the invariant. The
+    invariants are evaluated after construction (violating constructions are rejected) and around public methods."""
+    import collections
+
+    import icontract
+
+    seen = []
+
+    def inv(self):
+        seen.append("inv")
+        return len(self.args if isinstance(self, BaseException) else self) < 3
+
+    bases = {"list": (list, [1, 2, 3, 4]), "dict": (dict, {1: 1, 2: 2, 3: 3}), "set": (set, {1, 2, 3}),
+             "deque": (collections.deque, [1, 2, 3]), "bytearray": (bytearray, b"abcd")}
+    for bname, (base, big) in bases.items():
+        for how in ("decorated", "dbc", "inherited"):
+            if how == "decorated":
+                K = icontract.invariant(inv, "short")(type("K", (base,), {"size": lambda self: len(self)}))
+            elif how == "dbc":
+                K = icontract.invariant(inv, "short")(type(icontract.DBC)("K", (icontract.DBC, base), {"size": lambda self: len(self)}))
+            else:
+                P = icontract.invariant(inv, "short")(type(icontract.DBC)("P", (icontract.DBC, base), {}))
+                K = type(icontract.DBC)("K", (P,), {"size": lambda self: len(self)})
+            label = "%s sub-class (%s)" % (bname, how)
+            for what, fn, want in (("violating construction", lambda: K(big), "violation"), ("valid construction", lambda: K(), "ok"),
+                                   ("public method", lambda: K().size(), "ok")):
+                del seen[:]
+                try:
+                    fn()
+                    got = "ok"
+                except icontract.ViolationError:
+                    got = "violation"
+                except BaseException as e:  # noqa
+                    got = "%s: %s" % (type(e).__name__, e)
+                ctx.case(["builtin-base", bname, how, what], True, sample={"directed": label, "operation": what, "outcome": got})
+                min_evals = {"violating construction": 1, "valid construction": 1, "public method": 3}[what]
+                if got != want or len(seen) < min_evals:
+                    ctx.fail("builtin-base|%s|%s" % (how, what.split()[0]), {"builtin_base": [bname, how, what]},
+                             "%s, %s: expected %s with at least %d invariant evaluation(s), got %s with %d" % (
+                                 label, what, want, min_evals, got, len(seen)))
+
+
 def directed(ctx, only=None):
     D.run_one(ctx, dict(D19_CASE), judge, nontrivial=lambda *a: True)
+    if only is None:
+        builtin_bases(ctx)
     if only is None:
         n = 0
         for case in constructor_matrix():
@@ -430,6 +476,11 @@ def directed(ctx, only=None):
 
 
 def replay(ctx, case):
+    if case.get("builtin_base"):
+        before = ctx.evaluations
+        builtin_bases(ctx)
+        ctx.evaluations = before
+        return
     case = dict(case)
     case.setdefault("codes", {})
     case["masks"] = [0]
